@@ -345,6 +345,10 @@ tsk_strerror_internal(int err)
                   "no unknown times. (Use compute_mutation_times to add times?) "
                   "(TSK_ERR_DISALLOWED_UNKNOWN_MUTATION_TIME)";
             break;
+        case TSK_ERR_BAD_MUTATION_PARENT:
+            ret = "A mutation's parent is not consistent with the topology of the "
+                  "tree. (TSK_ERR_BAD_MUTATION_PARENT)";
+            break;
 
         /* Migration errors */
         case TSK_ERR_UNSORTED_MIGRATIONS:
